@@ -386,6 +386,9 @@ type built struct {
 	badChunk bool
 	plain    []byte
 	okPrefix int
+	// an empty Authorization header carries no credentials: refusing it and treating
+	// it as anonymous are both acceptable
+	eitherAnon bool
 }
 
 const region = "us-east-1"
@@ -601,6 +604,7 @@ func apply(rt route, base *s3kit.Req, altPath string, c sv, id ident, fx *fixtur
 		case "basic":
 			r.Set("Authorization", "Basic dXNlcjpwYXNz")
 		case "emptyauth":
+			out.eitherAnon = true
 			r.Set("Authorization", "")
 		case "v4-garbage":
 			r.Set("Authorization", "AWS4-HMAC-SHA256 garbage")
@@ -616,6 +620,9 @@ func apply(rt route, base *s3kit.Req, altPath string, c sv, id ident, fx *fixtur
 		case "presign-v2-partial":
 			r.Query = append(r.Query, s3kit.KV{K: "AWSAccessKeyId", V: good.AK})
 		case "streaming+formdata":
+			// no authentication information at all: on GET/HEAD/DELETE these markers mean
+			// nothing and the request is simply anonymous
+			out.isAnon = true
 			r.Set("X-Amz-Content-Sha256", s3kit.StreamingHash)
 			r.Set("Content-Type", "multipart/form-data; boundary=xyz")
 		case "lowercase-aws4":
@@ -800,6 +807,11 @@ func runCase(t interface {
 		// the server dropped the connection without an answer: nothing was returned; still check the namespace
 		resp = &s3kit.Resp{Status: 599}
 	}
+	if b.eitherAnon && resp.Status < 300 && (rt.action == "" || permits(anonymous.Actions, rt.action, fx.bucket)) {
+		if rt.name != "ListBuckets" || len(listedBuckets(string(resp.Body))) == 0 {
+			return desc, false, "allowed-as-anonymous", "", ""
+		}
+	}
 	if allowed && b.badChunk {
 		// The seed signature is valid and permitted, so the statement lets the request
 		// through; but bytes of a chunk whose signature is wrong are not authenticated
@@ -868,9 +880,18 @@ func runCase(t interface {
 // ---------------------------------------------------------------- properties
 
 func TestPropAuthRandom(t *testing.T) {
-	vlib.Check(t, 320, 6000, func(t *rapid.T) {
+	vlib.Check(t, 320, 4000, func(t *rapid.T) {
 		rtIdx := rapid.IntRange(0, len(routes)-1).Draw(t, "route")
 		cs := combos(routes[rtIdx])
+		if rapid.IntRange(0, 2).Draw(t, "wantValid") == 0 {
+			var vs []sv
+			for _, c := range cs {
+				if isValidVariant(c.variant) || c.style == "anon" {
+					vs = append(vs, c)
+				}
+			}
+			cs = vs
+		}
 		c := cs[rapid.IntRange(0, len(cs)-1).Draw(t, "combo")]
 		id := idents[0]
 		if isValidVariant(c.variant) || rapid.IntRange(0, 3).Draw(t, "anyIdent") == 0 {
@@ -917,6 +938,9 @@ func TestPropAuthMatrixExhaustive(t *testing.T) {
 				runs = append(runs, ib{idents[0], "b1"})
 				if c.style == "anon" {
 					runs = append(runs, ib{idents[0], "pubb"}, ib{idents[0], "b2"})
+				}
+				if c.style == "conf" || c.style == "post" {
+					runs = append(runs, ib{idents[0], "pubb"}) // where the anonymous identity may read
 				}
 			}
 			for _, r := range runs {
